@@ -68,13 +68,32 @@ class GVar:
     def shape(self):
         return self.values.shape
 
+    def item(self, *index):
+        return self.values.item(*index)
+
+    def __getitem__(self, key):
+        return self.values[key]             # (a view: stores through it reach the variable, as with a DataArray)
+
+    def __setitem__(self, key, val):
+        self.values[key] = val
+
+    def min(self):
+        return self.values.min()
+
+    def max(self):
+        return self.values.max()
+
+    def copy(self, deep=True):
+        return GVar(self.dims, self.values.copy() if deep else self.values)
+
 
 class GDataset:
     """ASSUMED xarray.Dataset contract, restricted to what expand() uses:
       isel(**{dim: idx})   every variable along `dim` becomes v[idx] (idx within the dimension), the others are unchanged;
       ds[name] = dim, vals a new variable along `dim`, whose length must be the size of `dim` (else ValueError);
       swap_dims({a: b})    b must be a variable along a alone; every variable along a is along b afterwards;
-      drop_vars(name), rename({old: new}) (variables and dimensions; `old` must exist), variables, sizes, ds[name].
+      drop_vars(name), rename({old: new}) (variables and dimensions; `old` must exist), variables, sizes / dims, ds[name];
+      ds[[names]] is a dataset of those variables SHARING their data; copy(deep=True) has private data.
     Every operation but item assignment returns a new dataset."""
     __pyvc_symbolic__ = True
     __pyvc_native__ = True
@@ -91,7 +110,17 @@ class GDataset:
         return out
 
     def __getitem__(self, name):
+        if isinstance(name, list):
+            # a sub-dataset of the listed variables; it SHARES their data with this dataset (xarray does not copy)
+            return GDataset({n: self.variables[n] for n in name})
         return self.variables[name]
+
+    @property
+    def dims(self):
+        return self.sizes
+
+    def copy(self, deep=False):
+        return GDataset({n: v.copy(deep=deep) for n, v in self.variables.items()})
 
     def __contains__(self, name):
         return name in self.variables
@@ -110,6 +139,9 @@ class GDataset:
         return GDataset(new)
 
     def __setitem__(self, name, value):
+        if isinstance(value, GVar):
+            self.variables[name] = value
+            return
         dim, vals = value
         size = self.sizes.get(dim)
         n = vals.shape[0]
@@ -153,7 +185,7 @@ class GDataset:
 REG.inline_ok.add(M + "expand")
 REG.inline_ok.add("typhon.collocations.collocator:check_collocation_data")
 ASSUMPTIONS.append("xarray.Dataset.isel / item assignment / swap_dims / drop_vars / rename behave as the ghost dataset GDataset states "
-                   "(contracts/C13.py); the real library is exercised in the bounded check expand-collapse-concat")
+                   "(contracts/C13.py), xarray.concat / merge as modelled there; the real library is exercised in the bounded check expand-collapse-concat")
 
 
 def _expand_setup():
@@ -200,6 +232,139 @@ def thm_expand_canary():
     out = CC.expand(ds)
     a = out["A/x"].values[k]
     ensures(a == x[k], id="CANARY: expanded rows are the stored rows (must fail)")
+
+
+# ------------------------------------------------------------------ concat_collocations() on ghost datasets
+import xarray as _xr                           # noqa: E402
+import contracts.pdghost as _pdg               # noqa: E402,F401   (pandas.Timestamp / Timedelta on symbolic instants)
+from pyvc.models import model as _model        # noqa: E402
+
+
+def _cat_arrays(arrs, axis):
+    """concatenation of symbolic arrays along `axis` (vectors: axis 0; matrices: axis 1), lengths may be symbolic"""
+    out = arrs[0]
+    for nxt in arrs[1:]:
+        a, b = out, nxt
+        if a.ndim == 1 and axis == 0:
+            n1 = a.shape[0]
+            fa_, fb_ = a.fn, b.fn
+            out = _SArr((n1 + b.shape[0],), (lambda i, fa_=fa_, fb_=fb_, n1=n1: _sym.ite(_sym.mk(_lift(i) < _lift(n1)), fa_(i), fb_(i - n1))), a.dtype)
+        elif a.ndim == 2 and axis == 1:
+            n1 = a.shape[1]
+            fa_, fb_ = a.fn, b.fn
+            if not _sym.same_dim(a.shape[0], b.shape[0]):
+                raise ValueError("concat: the other dimension differs")
+            out = _SArr((a.shape[0], n1 + b.shape[1]),
+                        (lambda r, i, fa_=fa_, fb_=fb_, n1=n1: _sym.ite(_sym.mk(_lift(i) < _lift(n1)), fa_(r, i), fb_(r, i - n1))), a.dtype)
+        else:
+            raise _sym.OutsideSubset("ghost concat of rank-%d arrays along axis %d" % (a.ndim, axis))
+    return out
+
+
+@_model(_xr.concat, always=True)
+def _xr_concat(interp, objs, dim=None, **kw):
+    """ASSUMED xarray.concat contract (datasets with the same variables): a variable along `dim` is the concatenation of the
+    inputs' values along that dimension, in the order given; variables not along `dim` are taken from the first dataset"""
+    objs = list(objs)
+    if not objs or not all(isinstance(o, GDataset) for o in objs):
+        return _xr.concat(objs, dim=dim, **kw)
+    names = list(objs[0].variables)
+    for o in objs[1:]:
+        if set(o.variables) != set(names):
+            raise _sym.OutsideSubset("ghost concat of datasets with different variables")
+    new = {}
+    for name in names:
+        v = objs[0].variables[name]
+        if dim in v.dims:
+            new[name] = GVar(v.dims, _cat_arrays([o.variables[name].values for o in objs], v.dims.index(dim)))
+        else:
+            new[name] = v
+    return GDataset(new)
+
+
+@_model(_xr.merge, always=True)
+def _xr_merge(interp, objs, **kw):
+    """ASSUMED xarray.merge contract for datasets with disjoint variables: the union"""
+    objs = list(objs)
+    if not objs or not all(isinstance(o, GDataset) for o in objs):
+        return _xr.merge(objs, **kw)
+    new = {}
+    for o in objs:
+        for name, v in o.variables.items():
+            if name in new:
+                raise _sym.OutsideSubset("ghost merge of datasets sharing the variable %r" % (name,))
+            new[name] = v
+    return GDataset(new)
+
+
+for _n in ("concat_collocations",):
+    REG.inline_ok.add("typhon.collocations.collocator:" + _n)
+for _n in ("get_xarray_groups", "get_xarray_group"):
+    REG.inline_ok.add("typhon.utils.common:" + _n)
+    REG.inline_ok.add("typhon.utils:" + _n)
+
+
+def _ghost_result(tag, group_names=("A", "B")):
+    """a compact collocation result with symbolic numbers of stored points and pairs and valid pair indices"""
+    ctx = _sym.ctx()
+    nA, nB, N = fresh("nA" + tag, "int"), fresh("nB" + tag, "int"), fresh("N" + tag, "int")
+    requires(nA >= 1, nB >= 1, N >= 1)
+    pairs = _fa(ctx, "pairs" + tag, (2, N), "int")
+    requires(forall(0, N, lambda k: 0 <= pairs[0][k] and pairs[0][k] < nA and 0 <= pairs[1][k] and pairs[1][k] < nB))
+    x, y, itv = _fa(ctx, "x" + tag, (nA,)), _fa(ctx, "y" + tag, (nB,)), _fa(ctx, "interval" + tag, (N,))
+    tA = _fa(ctx, "timeA" + tag, (nA,), "int")
+    tA.time_unit = "ns"
+    A, B = group_names
+    ds = GDataset({
+        "Collocations/pairs": GVar(("Collocations/group", "Collocations/collocation"), pairs),
+        "Collocations/group": GVar(("Collocations/group",), _np.array([A, B])),
+        "Collocations/interval": GVar(("Collocations/collocation",), itv),
+        A + "/x": GVar((A + "/collocation",), x),
+        A + "/time": GVar((A + "/collocation",), tA),
+        B + "/y": GVar((B + "/collocation",), y),
+    })
+    return dict(ds=ds, nA=nA, nB=nB, N=N, pairs=pairs.copy(), x=x, y=y, itv=itv)
+
+
+_ghost_result.__pyvc_thm__ = True
+
+
+@theorem(P, "concat-shifts-pair-indices")
+def thm_concat():
+    """concat_collocations([a, b]): the stored points and the pairs of a are followed by those of b, b's pair indices shifted
+    by a's numbers of stored points -- so that it expands to expand(a) followed by expand(b) -- and a, b are left as they were"""
+    from typhon.collocations.collocator import concat_collocations
+    a, b = _ghost_result("1"), _ghost_result("2")
+    m = concat_collocations([a["ds"], b["ds"]])
+    N1, N = a["N"], a["N"] + b["N"]
+    k = fresh("k", "int")
+    requires(0 <= k, k < N)
+    mp = m["Collocations/pairs"].values
+    ensures(m["Collocations/pairs"].shape[1] == N and m["A/x"].shape[0] == a["nA"] + b["nA"] and m["B/y"].shape[0] == a["nB"] + b["nB"],
+            id="sizes add up")
+    p0, p1 = mp[0][k], mp[1][k]
+    ensures(0 <= p0 and p0 < a["nA"] + b["nA"] and 0 <= p1 and p1 < a["nB"] + b["nB"], id="pair indices of the result are valid")
+    k2 = k - N1
+    ex, ey = m["A/x"].values[p0], m["B/y"].values[p1]
+    if k < N1:
+        ensures(ex == a["x"][a["pairs"][0][k]] and ey == a["y"][a["pairs"][1][k]], id="pair k < N(a) carries the data of pair k of a")
+    else:
+        ensures(ex == b["x"][b["pairs"][0][k2]] and ey == b["y"][b["pairs"][1][k2]], id="pair k >= N(a) carries the data of pair k - N(a) of b")
+    # the same through expand(): expand(concat(a, b)) is expand(a) followed by expand(b)
+    out = CC.expand(m)
+    ox, oy, oi = out["A/x"].values[k], out["B/y"].values[k], out["Collocations/interval"].values[k]
+    ensures(ox == ex and oy == ey, id="expand(concat(a, b)) row k is that pair's data")
+    ensures(oi == (a["itv"][k] if k < N1 else b["itv"][k2]), id="... and its metadata")
+    # frame: the arguments still are the collocation results they were
+    j = fresh("j", "int")
+    requires(0 <= j, j < b["N"])
+    bp = b["ds"]["Collocations/pairs"].values
+    ensures(bp[0][j] == b["pairs"][0][j] and bp[1][j] == b["pairs"][1][j], id="the second argument's pair indices are unchanged")
+    i = fresh("i", "int")
+    requires(0 <= i, i < a["N"])
+    ap = a["ds"]["Collocations/pairs"].values
+    ensures(ap[0][i] == a["pairs"][0][i] and ap[1][i] == a["pairs"][1][i], id="the first argument's pair indices are unchanged")
+    ensures(list(m["Collocations/group"].values) == ["A", "B"], id="the group names are kept")
 
 
 # ------------------------------------------------------------------ bounded: expand / collapse / concat_collocations on real xarray data
@@ -319,9 +484,14 @@ def bounded_ecc(rng, tier):
             distinct.add((r, "concat", len(sets)))
             try:
                 parts = [expanded_rows(s) for s in sets]
-                cat = concat_collocations([s.copy(deep=True) for s in sets])
+                given = [s.copy(deep=True) for s in sets]
+                cat = concat_collocations(given)
                 got = expanded_rows(cat)
                 bad = [k for k in got if not _same(got[k], _np.concatenate([pt[k] for pt in parts], axis=0))]
+                # frame: the datasets handed in still are the collocation results they were
+                for gi, (g, s0) in enumerate(zip(given, sets)):
+                    if not all(_np.array_equal(g[v].values, s0[v].values, equal_nan=s0[v].dtype.kind == "f") for v in s0.variables if s0[v].dtype.kind in "iuf"):
+                        bad.append("argument %d was modified (pairs %s -> %s)" % (gi, s0["Collocations/pairs"].values.tolist(), g["Collocations/pairs"].values.tolist()))
                 p = cat["Collocations/pairs"].values
                 if p.min() < 0 or p[0].max() >= cat["A/x"].size or p[1].max() >= cat["B/x"].size:
                     bad.append("pair indices out of range")
